@@ -12,6 +12,7 @@ import (
 	"reflect"
 	"strconv"
 	"strings"
+	"unsafe"
 
 	"github.com/alecthomas/participle/v2"
 	"github.com/alecthomas/participle/v2/lexer"
@@ -404,6 +405,8 @@ type c07xImpl struct {
 	sel    sql.ISelect
 	text   string
 	script *logql_parser.LogQLScript // a fresh parse (Plan cuts the one it is given)
+	plan   any                       // the ClickHouse request planner object of the chain
+	given  []*logql_parser.LabelFilter // per pipeline element of the script GIVEN to Plan its label filter (nil: another stage)
 }
 
 func c07xImplSQL(query string, c qctx) (*c07xImpl, error) {
@@ -413,6 +416,11 @@ func c07xImplSQL(query string, c qctx) (*c07xImpl, error) {
 	}
 	fresh, _ := logql_parser.Parse(query)
 	res := &c07xImpl{script: fresh}
+	if script.StrSelector != nil {
+		for i := range script.StrSelector.Pipelines {
+			res.given = append(res.given, script.StrSelector.Pipelines[i].LabelFilter)
+		}
+	}
 	var perr error
 	func() {
 		defer func() {
@@ -434,6 +442,7 @@ func c07xImplSQL(query string, c qctx) (*c07xImpl, error) {
 			perr = fmt.Errorf("plan: no ClickHouse getter in the chain")
 			return
 		}
+		res.plan = g.ClickhouseRequestPlanner
 		sel, err := g.ClickhouseRequestPlanner.Process(c.planner())
 		if err != nil {
 			perr = fmt.Errorf("process: %w", err)
@@ -468,14 +477,27 @@ func c07xStageKinds(r *h.Result, stream string, s *logql_parser.LogQLScript) {
 }
 
 // c07TextX: byte-equal SQL between the real path and LogQL.planScript
-func c07TextX(r *h.Result, rng *h.Rng, n int) error {
+func c07TextX(r *h.Result, rng *h.Rng, n int, cov *c07gCov) error {
 	r.Stream("textx: logql_parser.Parse → logql_transpiler_v2.Plan (GetBreakpoint, breakScript, clickhouse_planner.Plan) → the ClickHouse request planner of the chain → Process → String vs LogQL.planScript/Sql.renderSel (byte-equal SQL; json with parameters, regexp, drop, filters after them, hand-over)")
-	var ops, impl []string
-	var cases []any
+	var ops, impl, anOps, anImpl []string
+	var cases, anCases []any
 	for i := 0; i < n; i++ {
 		query := c07xGenQuery(rng, 5)
+		if i%2 == 1 {
+			query = c07gQuery(rng, c07gGuided(c07gCfgX, cov)) // derived from the grammar (c07gram.go)
+			r.Count("textx:from-grammar")
+		}
 		c := genCtx(rng)
 		im, err := c07xImplSQL(query, c)
+		if im != nil && im.script != nil {
+			bp, _ := lt.GetBreakpoint(im.script)
+			if form := c07gRefused(im.script, bp); form != "" {
+				r.Count("textx:refused-form:" + form)
+				if err == nil {
+					r.Disagree("textx-refused", form, "planned: "+truncS(im.text, 200), "the planner refuses this form", map[string]any{"query": query})
+				}
+			}
+		}
 		if err != nil {
 			r.Count("textx:impl-error")
 			cls := err.Error()
@@ -499,16 +521,118 @@ func c07TextX(r *h.Result, rng *h.Rng, n int) error {
 		ops = append(ops, "c07planx "+c.ser()+" "+ser)
 		impl = append(impl, h.Hex([]byte(im.text)))
 		cases = append(cases, map[string]any{"query": query, "ctx": c})
+		// the push-down as the plan OBJECT has it: which pipeline elements' filters sit in SimpleLabelFilterPlanner wrappers
+		if stages := ser[strings.Index(ser, " ")+1:]; stages != "-" {
+			var sql []string
+			for _, st := range strings.Split(stages, ";") {
+				if strings.HasPrefix(st, "I:") {
+					break
+				}
+				sql = append(sql, st)
+			}
+			if len(sql) > 0 {
+				pushed := c07xPushedDown(im.plan)
+				marks := make([]byte, len(sql))
+				for j := range marks {
+					marks[j] = '0'
+					if j < len(im.given) && im.given[j] != nil && pushed[im.given[j]] {
+						marks[j] = '1'
+					}
+				}
+				anOps = append(anOps, "c07analyze "+strings.Join(sql, ";"))
+				anImpl = append(anImpl, string(marks))
+				anCases = append(anCases, map[string]any{"query": query})
+			}
+		}
 		r.Case("textx:"+query+fmt.Sprint(c), true)
 		c07xStageKinds(r, "textx", im.script)
-		if bp, _ := lt.GetBreakpoint(im.script); bp >= 0 {
+		bp, _ := lt.GetBreakpoint(im.script)
+		if bp >= 0 {
 			r.Count("textx:handed-over")
+		}
+		if cov != nil {
+			c07gObserve(im.script, bp, cov.add)
 		}
 		if i%67 == 0 {
 			r.Sample(map[string]any{"stream": "textx", "query": query, "ctx": c, "sql": im.text})
 		}
 	}
+	// analysis: the marks of the model's `simpleOps` = the filters the real plan object decides on the stored labels
+	r.Stream("analysis: the label filters wrapped into SimpleLabelFilterPlanner objects in the plan logql_transpiler_v2.Plan built (object graph walked by reflection, filters identified by pointer) vs the marks of LogQL.simpleOps on the serialised pipeline")
+	ans, err := h.Model(anOps)
+	if err != nil {
+		return err
+	}
+	for i := range anOps {
+		got := ans[i]
+		if j := strings.Index(got, " "); j > 0 {
+			got = got[:j]
+		}
+		r.Case("analysis:"+anOps[i], strings.Contains(anImpl[i], "1"))
+		if strings.Contains(anImpl[i], "1") {
+			r.Count("analysis:some-filter-pushed-down")
+		}
+		if got != anImpl[i] {
+			r.Disagree("analysis", anOps[i], anImpl[i], got, anCases[i])
+		}
+	}
 	return r.Compare("textx", ops, impl, cases)
+}
+
+// c07xPushedDown: the `Expr` of every SimpleLabelFilterPlanner reachable from a planner object
+func c07xPushedDown(root any) map[*logql_parser.LabelFilter]bool {
+	res := map[*logql_parser.LabelFilter]bool{}
+	seen := map[uintptr]bool{}
+	var walk func(v reflect.Value, depth int)
+	walk = func(v reflect.Value, depth int) {
+		if depth > 200 || !v.IsValid() {
+			return
+		}
+		switch v.Kind() {
+		case reflect.Interface:
+			if !v.IsNil() {
+				walk(v.Elem(), depth+1)
+			}
+		case reflect.Ptr:
+			if v.IsNil() || seen[v.Pointer()] {
+				return
+			}
+			seen[v.Pointer()] = true
+			if v.Type().Elem().Kind() == reflect.Struct && v.Type().Elem().Name() == "SimpleLabelFilterPlanner" {
+				if f := v.Elem().FieldByName("Expr"); f.IsValid() && f.CanInterface() {
+					if lf, ok := f.Interface().(*logql_parser.LabelFilter); ok && lf != nil {
+						res[lf] = true
+					}
+				}
+			}
+			if v.Type().Elem().Kind() == reflect.Struct || v.Type().Elem().Kind() == reflect.Ptr || v.Type().Elem().Kind() == reflect.Interface {
+				walk(v.Elem(), depth+1)
+			}
+		case reflect.Struct:
+			if strings.HasPrefix(v.Type().PkgPath(), "github.com/metrico/qryn/reader/logql/logql_parser") {
+				return // the syntax tree itself holds no planners
+			}
+			for i := 0; i < v.NumField(); i++ {
+				f := v.Field(i)
+				switch f.Kind() {
+				case reflect.Interface, reflect.Ptr, reflect.Struct, reflect.Slice:
+					if !f.CanInterface() {
+						if !f.CanAddr() {
+							continue
+						}
+						f = reflect.NewAt(f.Type(), unsafe.Pointer(f.UnsafeAddr())).Elem()
+					}
+					walk(f, depth+1)
+				}
+			}
+		case reflect.Slice:
+			for i := 0; i < v.Len(); i++ {
+				walk(v.Index(i), depth+1)
+			}
+		}
+	}
+	walk(reflect.ValueOf(root), 0)
+	return res
 }
 
 // ---------------------------------------------------------------- sem stream for the extended fragment
@@ -555,6 +679,7 @@ func c07xVocab(s *logql_parser.LogQLScript) (vocab, []*logql_parser.Parser) {
 type c07xPath struct {
 	ser   string // k<hex>/i<n>
 	parts []any  // string key or int (1-based) position
+	label string // the label the parameter sets
 }
 
 func c07xPathsOf(parsers []*logql_parser.Parser) []c07xPath {
@@ -574,6 +699,9 @@ func c07xPathsOf(parsers []*logql_parser.Parser) []c07xPath {
 				continue
 			}
 			var cp c07xPath
+			if pp.Label != nil {
+				cp.label = pp.Label.Name
+			}
 			var ser []string
 			for j, name := range names {
 				if idx, isIdx := typed[j].(int); isIdx {
@@ -785,15 +913,41 @@ func c07xClassify(s *logql_parser.LogQLScript) string {
 	return strings.Join(ks, ",")
 }
 
+// c07xCorpus: one parenthesised comparison per (position, class of the label it reads); three databases each
+var c07xCorpus = []string{
+	`{a="b"} | drop x | (x="1")`,
+	`{a="b"} | drop x="1" | (x="1" or lvl="2")`,
+	`{a="b"} | drop x | lvl!="2" and (x!="1")`,
+	`{a="b"} | drop x | ((x="1"))`,
+	`{a="b"} | drop x | (n1="")`,
+	`{a="b"} | drop x | x="1"`,
+	`{a="b"} | (x="1") | drop x`,
+	`{a="b"} | json x="a" | (x="1")`,
+	`{a="b"} | json n1="a" | (n1="1" or x="1")`,
+	`{a="b"} | regexp "(?P<x>\\d+)" | (x="42")`,
+	`{a="b"} | drop x | json x="a" | (x="1")`,
+	`{a="b"} | json x="a" | drop x | (x="1")`,
+	`{a="b"} | drop x | (x > 0)`,
+	`{a="b"} | drop x | (x =~ "1")`,
+}
+
 // c07SemX: the statement the real path BUILT, dumped by reflection, evaluated by Sql.evalSelX on small databases against the
 // direct reading LogQL.evalScript — the oracle of C07 on implementation output, for the SQL-side pipeline stages
-func c07SemX(r *h.Result, rng *h.Rng, n int) error {
+func c07SemX(r *h.Result, rng *h.Rng, n int, cov *c07gCov, atoms map[string]int) error {
 	r.Stream("semx: reflection dump of the sql_select tree built through logql_transpiler_v2.Plan → Sql.evalSelX (SELECT aliases visible) on generated databases (JSON / broken / plain / pattern-matching lines) vs LogQL.evalScript (oracle on implementation output); also renderSel(dump) = real text; regexp group count = names")
 	var ops, renderOps, implText []string
 	var cases []map[string]any
 	var keys []string
 	for i := 0; i < n; i++ {
 		query := c07xGenQuery(rng, 4)
+		if i%3 != 0 {
+			query = c07gQuery(rng, c07gGuided(c07gCfgX, cov)) // derived from the grammar (c07gram.go)
+			r.Count("semx:from-grammar")
+		}
+		if i < 3*len(c07xCorpus) {
+			query = c07xCorpus[i/3] // small fixed shapes first: a failure on one of them is the readable replay
+			r.Count("semx:corpus")
+		}
 		c := genCtx(rng)
 		if c.Limit > 100 {
 			c.Limit = int64(rng.Range(1, 4))
@@ -807,6 +961,10 @@ func c07SemX(r *h.Result, rng *h.Rng, n int) error {
 			continue
 		}
 		v, parsers := c07xVocab(im.script)
+		v.never = map[string]bool{}
+		for _, nm := range c07gNeverStored {
+			v.never[nm] = true
+		}
 		paths := c07xPathsOf(parsers)
 		// the SQL-side patterns: names and stripped text, as the planner computes them
 		type rxInfo struct {
@@ -849,6 +1007,12 @@ func c07SemX(r *h.Result, rng *h.Rng, n int) error {
 			continue
 		}
 		db := c07xGenDB(rng, c, v, paths, rxTexts)
+		if cov != nil {
+			c07gObserve(im.script, bp, cov.add)
+			c07gAtoms(im.script, bp, func(k string) { atoms[k]++ })
+			atoms["truth:measured"]++
+			c07gTruth(im.script, bp, db.docs, func(k string) { atoms["truth:"+k]++ })
+		}
 		// oracle tables of the new stages; what they extract joins the label values the other tables range over
 		var jf, rc []string
 		for line := range db.lines {
